@@ -69,6 +69,94 @@ pub struct Runtime {
     pub stack: Vec<Value>,
     pub under_stack: Vec<Value>,
     pub backend: BackendHolder,
+    pub memo: MemoHolder,
+}
+/// the memo table (src/run.rs: `Arc<ThreadLocal<RefCell<MemoMap>>>`, a hash map of hash maps): association
+/// lists with linear search; `get_or_default` hands out the one cell of this thread
+#[derive(Default)]
+pub struct MemoHolder(pub std::cell::RefCell<MemoMap>);
+impl MemoHolder {
+    pub fn get_or_default(&self) -> &std::cell::RefCell<MemoMap> {
+        &self.0
+    }
+}
+/// at most one memoised function with at most two remembered argument lists (fixed capacity: no heap growth)
+#[derive(Default)]
+pub struct MemoMap {
+    pub entry: Option<(Node, FMemo)>,
+}
+#[derive(Default)]
+pub struct FMemo {
+    pub items: [Option<(Vec<Value>, Vec<Value>)>; 2],
+}
+fn same_vals(a: &[Value], b: &[Value]) -> bool {
+    if a.len() != b.len() {
+        return false;
+    }
+    let mut i = 0;
+    while i < a.len() {
+        if a[i] != b[i] {
+            return false;
+        }
+        i += 1;
+    }
+    true
+}
+impl FMemo {
+    pub fn get(&self, k: &Vec<Value>) -> Option<&Vec<Value>> {
+        let mut i = 0;
+        while i < 2 {
+            if let Some((key, val)) = &self.items[i] {
+                if same_vals(key, k) {
+                    return Some(val);
+                }
+            }
+            i += 1;
+        }
+        None
+    }
+    pub fn insert(&mut self, k: Vec<Value>, v: Vec<Value>) {
+        let mut i = 0;
+        while i < 2 {
+            let hit = match &self.items[i] {
+                Some((key, _)) => same_vals(key, &k),
+                None => true,
+            };
+            if hit {
+                self.items[i] = Some((k, v));
+                return;
+            }
+            i += 1;
+        }
+        panic!("memo shim capacity exceeded");
+    }
+}
+pub struct MemoEntry<'a>(&'a mut MemoMap, Node);
+impl<'a> MemoEntry<'a> {
+    pub fn or_default(self) -> &'a mut FMemo {
+        let fresh = match &self.0.entry {
+            Some((n, _)) => {
+                assert!(*n == self.1, "memo shim holds one function");
+                false
+            }
+            None => true,
+        };
+        if fresh {
+            self.0.entry = Some((self.1, FMemo::default()));
+        }
+        &mut self.0.entry.as_mut().unwrap().1
+    }
+}
+impl MemoMap {
+    pub fn get_mut(&mut self, k: &Node) -> Option<&mut FMemo> {
+        match &mut self.entry {
+            Some((n, f)) if *n == *k => Some(f),
+            _ => None,
+        }
+    }
+    pub fn entry(&mut self, k: Node) -> MemoEntry<'_> {
+        MemoEntry(self, k)
+    }
 }
 #[derive(Default)]
 pub struct BackendHolder;
@@ -105,7 +193,7 @@ pub struct Uiua {
 impl Uiua {
     pub fn new(stack: Vec<Value>, under: Vec<Value>) -> Self {
         Uiua {
-            rt: Runtime { stack, under_stack: under, backend: BackendHolder },
+            rt: Runtime { stack, under_stack: under, backend: BackendHolder, memo: MemoHolder::default() },
             behav: [Behav::default(); MAXN],
             nlog: 0,
             log_node: [0; MAXN],
